@@ -111,6 +111,7 @@ type runCtx struct {
 	entryObjN  int
 	freshTerms map[string]bool
 	config     map[string]bool
+	freeVars   map[string]bool
 }
 
 func newMachine(prog *ssa.Program, pkg *ssa.Package, cf *ContractFile, pre *Prelude) *Machine {
